@@ -1,6 +1,718 @@
-"""pyvc.lib_nx -- assumed contracts on networkx (A-nx-graph ...). Filled in as properties need it."""
+"""pyvc.lib_nx -- assumed contract on networkx graphs (A-nx-graph), as a symbolic model.
+
+A graph is a heap object of class Graph / DiGraph with value-typed fields
+    nodes : set[any]                        adj   : set[tuple[any,any]]        (Graph: symmetric)
+    nattr : dict[any, dict[str,any]]        eattr : dict[tuple[any,any], dict[str,any]]   (Graph: symmetric)
+    gattr : dict[str,any]
+`G.nodes[n]`, `G[u][v]`, and the `data` yielded by `G.nodes(data=True)` / `G.edges(data=True)` are *live* dicts:
+they carry an origin, so writes through them update the graph (for an undirected edge both orientations).
+Iteration over nodes / edges is an arbitrary duplicate-free enumeration; an undirected edge is yielded once, in an
+arbitrary orientation.  `G.edges(n)` on a DiGraph yields the out-arcs of n only.
+"""
 from __future__ import annotations
+
+import z3
+
+from . import core
+from .core import (ANY, BOOL, DICT, INT, LIST, OBJ, OPT, REAL, SET, STR, TUP, Kind, Val, STRINGS,
+                   keysort, to_key, from_key, tselect, tstore, tite, teq, tfresh, tmap, default_tree, sort_tree,
+                   parse_kind)
+from .source import Unsupported
+
+TRUE, FALSE = z3.BoolVal(True), z3.BoolVal(False)
+ATTR = DICT(STR, ANY)
+EDGE = TUP(ANY, ANY)
+GRAPH_FIELDS = {"nodes": "set[any]", "nattr": "dict[any,dict[str,any]]", "adj": "set[tuple[any,any]]",
+                "eattr": "dict[tuple[any,any],dict[str,any]]", "gattr": "dict[str,any]"}
+
+
+class NodeView:
+    def __init__(self, g):
+        self.g = g
+
+
+class EdgeView:
+    def __init__(self, g):
+        self.g = g
+
+
+class AdjView:
+    def __init__(self, g, u=None):
+        self.g, self.u = g, u
+
+
+class DegreeView:
+    def __init__(self, g):
+        self.g = g
 
 
 def install(I):
-    pass
+    from .interp import BuiltinVal, SV, ViewVal, IterSpec, ClassVal, ModuleVal, BoundBuiltin
+
+    def is_graph(v):
+        return isinstance(v, SV) and v.kind.tag == "obj" and v.kind.extra in ("Graph", "DiGraph")
+
+    def directed(g):
+        return g.kind.extra == "DiGraph"
+
+    def fld(st, g, name):
+        return SV(parse_kind(GRAPH_FIELDS[name]), tselect(I.heap_get(st, g.kind.extra, name), g.tree),
+                  ("fld", g.tree, g.kind.extra, name))
+
+    def ekey(u, v):
+        return to_key(EDGE, (I.as_any(u), I.as_any(v)))
+
+    def nkey(n):
+        return I.as_any(I.tup_to_sv(n) if not isinstance(n, SV) else n)
+
+    def node_sv(term):
+        return SV(ANY, term)
+
+    I.nx_is_graph = is_graph
+    I.nx_fld = fld
+
+    def nodeid_ok(n):
+        return z3.Or(Val.is_VInt(n), Val.is_VStr(n), Val.is_VTup(n))
+
+    # ------------------------------------------------------------------ well-formedness (assumed for inputs)
+    def graph_wf(st, g):
+        nodes, adj, nattr, eattr = fld(st, g, "nodes"), fld(st, g, "adj"), fld(st, g, "nattr"), fld(st, g, "eattr")
+        u, v = z3.Const(core.fresh_name("gu"), Val), z3.Const(core.fresh_name("gv"), Val)
+        e = to_key(EDGE, (u, v))
+        n = z3.Const(core.fresh_name("gn"), Val)
+        I.assumptions_used.add("A-nodeid: graph node ids are ints, strings or tuples (never float/bool/None), so Python "
+                               "equality on node ids is structural equality")
+        out = [nattr.tree[0] == nodes.tree, eattr.tree[0] == adj.tree,
+               z3.ForAll([n], z3.Implies(z3.Select(nodes.tree, n), nodeid_ok(n))),
+               z3.ForAll([u, v], z3.Implies(z3.Select(adj.tree, e), z3.And(z3.Select(nodes.tree, u), z3.Select(nodes.tree, v))))]
+        if not directed(g):
+            e2 = to_key(EDGE, (v, u))
+            out.append(z3.ForAll([u, v], z3.Select(adj.tree, e) == z3.Select(adj.tree, e2)))
+            out.append(z3.ForAll([u, v], z3.Implies(z3.Select(adj.tree, e),
+                                                    teq(tselect(eattr.tree[1], e), tselect(eattr.tree[1], e2)))))
+        return out
+    I.nx_graph_wf = graph_wf
+
+    # ------------------------------------------------------------------ origins for live edge-attribute dicts
+    def load_eattr(st, origin, kind):
+        _, gtree, cls, u, v = origin
+        g = SV(OBJ(cls), gtree)
+        ea = fld(st, g, "eattr")
+        return SV(ATTR, tselect(ea.tree[1], ekey(node_sv(u), node_sv(v))), origin)
+
+    def store_eattr(st, origin, sv):
+        _, gtree, cls, u, v = origin
+        g = SV(OBJ(cls), gtree)
+        ea = fld(st, g, "eattr")
+        val = tstore(ea.tree[1], ekey(node_sv(u), node_sv(v)), sv.tree)
+        if cls == "Graph":
+            val = tstore(val, ekey(node_sv(v), node_sv(u)), sv.tree)
+        return I.heap_write(st, cls, "eattr", gtree, SV(ea.kind, (ea.tree[0], val)))
+
+    I.origin_handlers = getattr(I, "origin_handlers", {})
+    I.origin_handlers["eattr"] = (load_eattr, store_eattr)
+
+    def edge_attr_alias(st, g, u, v):
+        ea = fld(st, g, "eattr")
+        return SV(ATTR, tselect(ea.tree[1], ekey(u, v)), ("eattr", g.tree, g.kind.extra, I.as_any(u), I.as_any(v)))
+
+    def node_attr_alias(st, g, n):
+        na = fld(st, g, "nattr")
+        k = nkey(n)
+        return SV(ATTR, tselect(na.tree[1], k), ("item", na.origin, na.kind, k))
+
+    def dict_union(a, b):
+        """a updated with b (values of b win)"""
+        ks = keysort(a.kind.args[0])
+        dom = I.set_op("|", SV(SET(a.kind.args[0]), a.tree[0]), SV(SET(a.kind.args[0]), b.tree[0])).tree
+        newval = tmap(lambda t: z3.Const(core.fresh_name("upd"), t.sort()), a.tree[1])
+        x = z3.Const(core.fresh_name("k"), ks)
+        I.define([z3.ForAll([x], teq(tselect(newval, x), tite(z3.Select(b.tree[0], x), tselect(b.tree[1], x),
+                                                                tselect(a.tree[1], x))))])
+        return SV(a.kind, (dom, newval))
+    I.dict_union = dict_union
+
+    def attrs_from_kwargs(kw):
+        """**attrs of add_node/add_edge -> SV dict[str,any] or None when empty"""
+        cur = None
+        star = kw.get("**")
+        if star is not None:
+            if isinstance(star, I.StaticDict):
+                kw = dict(star.d, **{k: v for k, v in kw.items() if k != "**"})
+            elif isinstance(star, SV) and star.kind.tag == "dict":
+                cur = I.coerce(star, ATTR) if star.kind != ATTR else SV(ATTR, star.tree)
+            elif isinstance(star, dict) and not star:
+                pass
+            else:
+                raise Unsupported("** of %r" % (star,))
+        pairs = [(k, v) for k, v in kw.items() if k != "**"]
+        if pairs:
+            lit = I.make_dict([(k, I.tup_to_sv(v) if not isinstance(v, (list, dict, set)) else unsupported_attr(v)) for k, v in pairs],
+                              STR, ANY)
+            cur = lit if cur is None else dict_union(cur, lit)
+        return cur
+
+    def unsupported_attr(v):
+        if isinstance(v, list) and not v:
+            return I.lit(())      # an empty list attribute value is represented by the empty tuple (A-nx-graph note)
+        raise Unsupported("container-valued graph attribute")
+
+    # ------------------------------------------------------------------ construction
+    def new_graph(cls):
+        def fn(I, st, args, kw):
+            if args and not (args[0] is None):
+                src = args[0]
+                if is_graph(src):
+                    yield from copy_graph(st, src, cls)
+                    return
+                raise Unsupported("nx.%s(data)" % cls)
+            s1, ref = I.alloc(st, cls)
+            g = SV(OBJ(cls), ref)
+            for name, ktxt in GRAPH_FIELDS.items():
+                k = parse_kind(ktxt)
+                s1 = I.heap_write(s1, cls, name, ref, SV(k, default_tree(k)))
+            yield g, s1
+        return fn
+
+    I.lib["new:Graph"] = BuiltinVal("Graph", new_graph("Graph"))
+    I.lib["new:DiGraph"] = BuiltinVal("DiGraph", new_graph("DiGraph"))
+    I.lib["networkx.Graph"] = ClassVal("Graph", None)
+    I.lib["networkx.DiGraph"] = ClassVal("DiGraph", None)
+    I.lib["nx.Graph"] = ClassVal("Graph", None)
+    I.lib["nx.DiGraph"] = ClassVal("DiGraph", None)
+
+    def copy_graph(st, src, cls=None):
+        cls = cls or src.kind.extra
+        s1, ref = I.alloc(st, cls)
+        g = SV(OBJ(cls), ref)
+        for name in GRAPH_FIELDS:
+            v = fld(st, src, name)
+            if cls == "Graph" and src.kind.extra == "DiGraph" and name in ("adj", "eattr"):
+                raise Unsupported("to_undirected copy")
+            s1 = I.heap_write(s1, cls, name, ref, SV(v.kind, v.tree))
+        yield g, s1
+
+    # ------------------------------------------------------------------ methods
+    def gmeth(name):
+        def deco(fn):
+            for cls in ("Graph", "DiGraph"):
+                I.lib["%s.%s" % (cls, name)] = BuiltinVal(name, fn)
+            return fn
+        return deco
+
+    # method dispatch: getattr on obj:Graph finds "Graph.<name>" in lib and returns BoundBuiltin(base, key);
+    # call_method is extended below to route those.
+    base_call_method = I.call_method
+
+    def call_method(st, recv, name, args, kw):
+        if is_graph(recv) and name in I.lib:
+            yield from I.lib[name].fn(I, st, [recv] + list(args), kw)
+            return
+        if isinstance(recv, (NodeView, EdgeView, AdjView, DegreeView)):
+            yield from view_method(st, recv, name, args, kw)
+            return
+        yield from base_call_method(st, recv, name, args, kw)
+    I.call_method = call_method
+
+    # attribute access that is not a call: G.nodes, G.edges, G.adj, G.graph, G.degree
+    base_getattr = I.getattr
+
+    def getattr_(st, base, attr):
+        if is_graph(base):
+            if attr == "nodes":
+                return NodeView(base)
+            if attr == "edges":
+                return EdgeView(base)
+            if attr in ("adj", "_adj"):
+                return AdjView(base)
+            if attr == "degree":
+                return DegreeView(base)
+            if attr == "graph":
+                return fld(st, base, "gattr")
+            if attr == "__class__":
+                return ClassVal(base.kind.extra, None)
+        if isinstance(base, (NodeView, EdgeView, AdjView, DegreeView)):
+            return BoundBuiltin(base, attr)
+        return base_getattr(st, base, attr)
+    I.getattr = getattr_
+
+    @gmeth("add_node")
+    def _add_node(I, st, args, kw):
+        g, n = args[0], args[1]
+        k = nkey(n)
+        st = st.assume(nodeid_ok(k))
+        nodes, nattr = fld(st, g, "nodes"), fld(st, g, "nattr")
+        present = z3.Select(nodes.tree, k)
+        cur = SV(ATTR, tite(present, tselect(nattr.tree[1], k), default_tree(ATTR)))
+        extra = attrs_from_kwargs(kw)
+        newd = cur if extra is None else dict_union(cur, extra)
+        s1 = I.heap_write(st, g.kind.extra, "nodes", g.tree, SV(nodes.kind, z3.Store(nodes.tree, k, TRUE)))
+        s1 = I.heap_write(s1, g.kind.extra, "nattr", g.tree,
+                          SV(nattr.kind, (z3.Store(nattr.tree[0], k, TRUE), tstore(nattr.tree[1], k, newd.tree))))
+        yield None, s1
+
+    @gmeth("add_edge")
+    def _add_edge(I, st, args, kw):
+        g, u, v = args[0], args[1], args[2]
+        cls = g.kind.extra
+        s1 = st
+        for n in (u, v):
+            k = nkey(n)
+            s1 = s1.assume(nodeid_ok(k))
+            nodes, nattr = fld(s1, g, "nodes"), fld(s1, g, "nattr")
+            present = z3.Select(nodes.tree, k)
+            cur = tite(present, tselect(nattr.tree[1], k), default_tree(ATTR))
+            s1 = I.heap_write(s1, cls, "nodes", g.tree, SV(nodes.kind, z3.Store(nodes.tree, k, TRUE)))
+            s1 = I.heap_write(s1, cls, "nattr", g.tree,
+                              SV(nattr.kind, (z3.Store(nattr.tree[0], k, TRUE), tstore(nattr.tree[1], k, cur))))
+        adj, eattr = fld(s1, g, "adj"), fld(s1, g, "eattr")
+        e1 = ekey(I.tup_to_sv(u), I.tup_to_sv(v))
+        present = z3.Select(adj.tree, e1)
+        cur = SV(ATTR, tite(present, tselect(eattr.tree[1], e1), default_tree(ATTR)))
+        extra = attrs_from_kwargs(kw)
+        newd = cur if extra is None else dict_union(cur, extra)
+        a2 = z3.Store(adj.tree, e1, TRUE)
+        dom2 = z3.Store(eattr.tree[0], e1, TRUE)
+        val2 = tstore(eattr.tree[1], e1, newd.tree)
+        if cls == "Graph":
+            e2 = ekey(I.tup_to_sv(v), I.tup_to_sv(u))
+            a2 = z3.Store(a2, e2, TRUE)
+            dom2 = z3.Store(dom2, e2, TRUE)
+            val2 = tstore(val2, e2, newd.tree)
+        s1 = I.heap_write(s1, cls, "adj", g.tree, SV(adj.kind, a2))
+        s1 = I.heap_write(s1, cls, "eattr", g.tree, SV(eattr.kind, (dom2, val2)))
+        yield None, s1
+
+    @gmeth("has_node")
+    def _has_node(I, st, args, kw):
+        g, n = args[0], args[1]
+        yield SV(BOOL, z3.Select(fld(st, g, "nodes").tree, nkey(n))), st
+
+    @gmeth("__contains__")
+    def _contains(I, st, args, kw):
+        yield from _has_node(I, st, args, kw)
+
+    @gmeth("has_edge")
+    def _has_edge(I, st, args, kw):
+        g, u, v = args[0], args[1], args[2]
+        yield SV(BOOL, z3.Select(fld(st, g, "adj").tree, ekey(I.tup_to_sv(u), I.tup_to_sv(v)))), st
+
+    @gmeth("number_of_nodes")
+    def _non(I, st, args, kw):
+        yield SV(INT, I.card(fld(st, args[0], "nodes").tree)), st
+
+    @gmeth("__len__")
+    def _glen(I, st, args, kw):
+        yield SV(INT, I.card(fld(st, args[0], "nodes").tree)), st
+
+    @gmeth("number_of_edges")
+    def _noe(I, st, args, kw):
+        g = args[0]
+        f = I.ufunc("nx_number_of_edges_%s" % g.kind.extra, z3.ArraySort(keysort(EDGE), core.B), core.I)
+        adj = fld(st, g, "adj").tree
+        if "noe" not in I._card_ax:
+            I._card_ax.add("noe")
+        I.define([f(adj) >= 0, (f(adj) == 0) == (adj == default_tree(SET(EDGE)))])
+        yield SV(INT, f(adj)), st
+
+    @gmeth("is_directed")
+    def _isdir(I, st, args, kw):
+        yield directed(args[0]), st
+
+    def nbr_set(st, g, n, which="out"):
+        """membership array of the neighbours of n (successors for DiGraph / which='in' predecessors)"""
+        adj = fld(st, g, "adj").tree
+        k = nkey(n)
+        res = z3.Const(core.fresh_name("nbrs"), z3.ArraySort(Val, core.B))
+        w = z3.Const(core.fresh_name("w"), Val)
+        e = to_key(EDGE, (k, w)) if which == "out" else to_key(EDGE, (w, k))
+        I.define([z3.ForAll([w], z3.Select(res, w) == z3.Select(adj, e))])
+        return res
+
+    def need_node(st, g, n, exc="KeyError"):
+        present = z3.Select(fld(st, g, "nodes").tree, nkey(n))
+        return [s for _, s in I.partial(st, present, exc, None)]
+
+    class LazyNbrs(IterSpec):
+        """neighbours of n: membership is a term (adj[(n,w)]); the array is only materialised when iterated"""
+        def __init__(self, st, g, n):
+            IterSpec.__init__(self, "set", ekind=ANY, elem=lambda x, s2: SV(ANY, x), identity=True)
+            self._st, self._g, self._n = st, g, n
+
+        def member(self, w):
+            return z3.Select(fld(self._st, self._g, "adj").tree, to_key(EDGE, (nkey(self._n), w)))
+
+        @property
+        def mem(self):
+            if "_mem" not in self.__dict__:
+                self.__dict__["_mem"] = nbr_set(self._st, self._g, self._n)
+            return self.__dict__["_mem"]
+
+    @gmeth("neighbors")
+    def _neighbors(I, st, args, kw):
+        g, n = args[0], args[1]
+        if st.pure:
+            yield LazyNbrs(st, g, n), st
+            return
+        for s in need_node(st, g, n, "NetworkXError"):
+            yield LazyNbrs(s, g, n), s
+    I.lib["Graph.successors"] = I.lib["Graph.neighbors"]
+    I.lib["DiGraph.successors"] = I.lib["DiGraph.neighbors"]
+
+    @gmeth("predecessors")
+    def _preds(I, st, args, kw):
+        g, n = args[0], args[1]
+        for s in need_node(st, g, n, "NetworkXError"):
+            arr = nbr_set(s, g, n, "in")
+            yield IterSpec("set", mem=arr, ekind=ANY, elem=lambda x, s2: SV(ANY, x), identity=True), s
+
+    @gmeth("copy")
+    def _copy(I, st, args, kw):
+        yield from copy_graph(st, args[0])
+
+    @gmeth("get_edge_data")
+    def _ged(I, st, args, kw):
+        g, u, v = args[0], args[1], args[2]
+        adj = fld(st, g, "adj").tree
+        e = ekey(I.tup_to_sv(u), I.tup_to_sv(v))
+        al = edge_attr_alias(st, g, I.tup_to_sv(u), I.tup_to_sv(v))
+        yield SV(OPT(ATTR), (z3.Not(z3.Select(adj, e)), al.tree)), st
+
+    @gmeth("remove_node")
+    def _remove_node(I, st, args, kw):
+        g, n = args[0], args[1]
+        cls = g.kind.extra
+        k = nkey(n)
+        for s in need_node(st, g, n, "NetworkXError"):
+            nodes, nattr, adj, eattr = fld(s, g, "nodes"), fld(s, g, "nattr"), fld(s, g, "adj"), fld(s, g, "eattr")
+            adj2 = z3.Const(core.fresh_name("adj"), adj.tree.sort())
+            u, v = z3.Const(core.fresh_name("u"), Val), z3.Const(core.fresh_name("v"), Val)
+            e = to_key(EDGE, (u, v))
+            I.define([z3.ForAll([u, v], z3.Select(adj2, e) == z3.And(z3.Select(adj.tree, e), u != k, v != k))])
+            s1 = I.heap_write(s, cls, "nodes", g.tree, SV(nodes.kind, z3.Store(nodes.tree, k, FALSE)))
+            s1 = I.heap_write(s1, cls, "nattr", g.tree, SV(nattr.kind, (z3.Store(nattr.tree[0], k, FALSE), nattr.tree[1])))
+            s1 = I.heap_write(s1, cls, "adj", g.tree, SV(adj.kind, adj2))
+            s1 = I.heap_write(s1, cls, "eattr", g.tree, SV(eattr.kind, (adj2, eattr.tree[1])))
+            yield None, s1
+
+    @gmeth("remove_edge")
+    def _remove_edge(I, st, args, kw):
+        g, u, v = args[0], args[1], args[2]
+        cls = g.kind.extra
+        adj, eattr = fld(st, g, "adj"), fld(st, g, "eattr")
+        e1 = ekey(I.tup_to_sv(u), I.tup_to_sv(v))
+        for _, s in I.partial(st, z3.Select(adj.tree, e1), "NetworkXError", None):
+            a2 = z3.Store(adj.tree, e1, FALSE)
+            d2 = z3.Store(eattr.tree[0], e1, FALSE)
+            if cls == "Graph":
+                e2 = ekey(I.tup_to_sv(v), I.tup_to_sv(u))
+                a2, d2 = z3.Store(a2, e2, FALSE), z3.Store(d2, e2, FALSE)
+            s1 = I.heap_write(s, cls, "adj", g.tree, SV(adj.kind, a2))
+            s1 = I.heap_write(s1, cls, "eattr", g.tree, SV(eattr.kind, (d2, eattr.tree[1])))
+            yield None, s1
+
+    @gmeth("subgraph")
+    def _subgraph(I, st, args, kw):
+        """induced subgraph as a *copy* (the read-only view's sharing of attribute dicts is not modelled: code under
+        contract that writes through a subgraph view is unsupported)"""
+        g = args[0]
+        keep = I.to_set_value(st, args[1])
+        if isinstance(keep, set):
+            keep = SV(SET(ANY), default_tree(SET(ANY)))
+        keep = I.coerce(keep, SET(ANY)) if keep.kind != SET(ANY) else keep
+        cls = g.kind.extra
+        nodes, nattr, adj, eattr = fld(st, g, "nodes"), fld(st, g, "nattr"), fld(st, g, "adj"), fld(st, g, "eattr")
+        n2 = I.set_op("&", nodes, keep)
+        adj2 = z3.Const(core.fresh_name("adj"), adj.tree.sort())
+        u, v = z3.Const(core.fresh_name("u"), Val), z3.Const(core.fresh_name("v"), Val)
+        e = to_key(EDGE, (u, v))
+        I.define([z3.ForAll([u, v], z3.Select(adj2, e) == z3.And(z3.Select(adj.tree, e), z3.Select(keep.tree, u),
+                                                                   z3.Select(keep.tree, v)))])
+        s1, ref = I.alloc(st, cls)
+        sub = SV(OBJ(cls), ref)
+        s1 = I.heap_write(s1, cls, "nodes", ref, SV(nodes.kind, n2.tree))
+        s1 = I.heap_write(s1, cls, "nattr", ref, SV(nattr.kind, (n2.tree, nattr.tree[1])))
+        s1 = I.heap_write(s1, cls, "adj", ref, SV(adj.kind, adj2))
+        s1 = I.heap_write(s1, cls, "eattr", ref, SV(eattr.kind, (adj2, eattr.tree[1])))
+        s1 = I.heap_write(s1, cls, "gattr", ref, fld(st, g, "gattr"))
+        yield sub, s1
+
+    # ------------------------------------------------------------------ views
+    def node_iter(st, g, data):
+        nodes = fld(st, g, "nodes")
+        if data is True:
+            def elem(x, s):
+                return (SV(ANY, x), node_attr_alias(s, g, SV(ANY, x)))
+        elif data is False or data is None:
+            def elem(x, s):
+                return SV(ANY, x)
+        else:
+            raise Unsupported("G.nodes(data=<key>)")
+        return IterSpec("set", mem=nodes.tree, ekind=ANY, elem=elem, identity=not data)
+
+    def edge_iter(st, g, data, nbunch=None, which="out"):
+        adj = fld(st, g, "adj")
+        mem = adj.tree
+        if nbunch is not None:
+            # edges incident to one node n: Graph -> (n, w) for every neighbour; DiGraph -> out-arcs (n, w) only
+            k = nkey(nbunch)
+            res = z3.Const(core.fresh_name("inc"), mem.sort())
+            u, v = z3.Const(core.fresh_name("u"), Val), z3.Const(core.fresh_name("v"), Val)
+            e = to_key(EDGE, (u, v))
+            cond = (u == k) if which == "out" else (v == k)
+            I.define([z3.ForAll([u, v], z3.Select(res, e) == z3.And(z3.Select(mem, e), cond))])
+            mem = res
+
+        def elem(x, s):
+            u, v = from_key(EDGE, x)
+            if data is True:
+                return (SV(ANY, u), SV(ANY, v), edge_attr_alias(s, g, SV(ANY, u), SV(ANY, v)))
+            if data is False or data is None:
+                return (SV(ANY, u), SV(ANY, v))
+            raise Unsupported("G.edges(data=<key>)")
+        spec = IterSpec("set", mem=mem, ekind=EDGE, elem=elem, identity=not data)
+        if not directed(g) and nbunch is None:
+            # each undirected edge once: visiting (u,v) also consumes (v,u)
+            def mark(done, x):
+                u, v = from_key(EDGE, x)
+                return z3.Store(z3.Store(done, x, TRUE), to_key(EDGE, (v, u)), TRUE)
+            spec.mark = mark
+        return spec
+
+    def view_call(st, view, args, kw):
+        data = kw.get("data", False)
+        if isinstance(view, NodeView):
+            if args:
+                data = args[0]
+            yield node_iter(st, view.g, data), st
+            return
+        if isinstance(view, EdgeView):
+            nb = args[0] if args else kw.get("nbunch")
+            yield edge_iter(st, view.g, data, nb), st
+            return
+        if isinstance(view, DegreeView):
+            yield from degree_of(st, view.g, args[0])
+            return
+        raise Unsupported("call of %r" % (view,))
+
+    def degree_of(st, g, n):
+        if directed(g):
+            raise Unsupported("degree on DiGraph")
+        arr = nbr_set(st, g, n)
+        k = nkey(n)
+        loop = z3.Select(fld(st, g, "adj").tree, to_key(EDGE, (k, k)))
+        yield SV(INT, I.card(arr) + z3.If(loop, 1, 0)), st
+
+    base_call = I.call
+
+    def call(st, f, args, kwargs):
+        if isinstance(f, (NodeView, EdgeView, DegreeView)):
+            yield from view_call(st, f, args, kwargs)
+            return
+        yield from base_call(st, f, args, kwargs)
+    I.call = call
+
+    @gmeth("in_edges")
+    def _in_edges(I, st, args, kw):
+        g = args[0]
+        nb = args[1] if len(args) > 1 else kw.get("nbunch")
+        yield edge_iter(st, g, kw.get("data", False), nb, "in"), st
+
+    @gmeth("out_edges")
+    def _out_edges(I, st, args, kw):
+        g = args[0]
+        nb = args[1] if len(args) > 1 else kw.get("nbunch")
+        yield edge_iter(st, g, kw.get("data", False), nb, "out"), st
+
+    def view_method(st, view, name, args, kw):
+        if isinstance(view, NodeView) and name in ("keys", "__iter__"):
+            yield node_iter(st, view.g, False), st
+            return
+        if isinstance(view, NodeView) and name == "items":
+            yield node_iter(st, view.g, True), st
+            return
+        if isinstance(view, NodeView) and name == "data":
+            yield node_iter(st, view.g, True), st
+            return
+        if isinstance(view, EdgeView) and name == "data":
+            yield edge_iter(st, view.g, True), st
+            return
+        raise Unsupported("method %s on %s" % (name, type(view).__name__))
+
+    # subscripts on views / graphs
+    base_getitem = I.getitem
+
+    def getitem(st, base, idx):
+        if isinstance(base, NodeView):
+            g = base.g
+            for s in need_node(st, g, idx):
+                yield node_attr_alias(s, g, idx), s
+            return
+        if isinstance(base, EdgeView):
+            g = base.g
+            if isinstance(idx, tuple) and len(idx) == 2:
+                u, v = idx
+            elif isinstance(idx, SV) and idx.kind.tag == "tuple" and len(idx.kind.args) == 2:
+                u, v = SV(idx.kind.args[0], idx.tree[0]), SV(idx.kind.args[1], idx.tree[1])
+            else:
+                raise Unsupported("G.edges[%r]" % (idx,))
+            u, v = I.tup_to_sv(u), I.tup_to_sv(v)
+            present = z3.Select(fld(st, g, "adj").tree, ekey(u, v))
+            for _, s in I.partial(st, present, "KeyError", None):
+                yield edge_attr_alias(s, g, u, v), s
+            return
+        if isinstance(base, AdjView):
+            if base.u is None:
+                for s in need_node(st, base.g, idx):
+                    yield AdjView(base.g, I.tup_to_sv(idx)), s
+                return
+            g, u, v = base.g, base.u, I.tup_to_sv(idx)
+            present = z3.Select(fld(st, g, "adj").tree, ekey(u, v))
+            for _, s in I.partial(st, present, "KeyError", None):
+                yield edge_attr_alias(s, g, u, v), s
+            return
+        if isinstance(base, DegreeView):
+            yield from degree_of(st, base.g, idx)
+            return
+        if is_graph(base):
+            for s in need_node(st, base, idx):
+                yield AdjView(base, I.tup_to_sv(idx)), s
+            return
+        yield from base_getitem(st, base, idx)
+    I.getitem = getitem
+
+    # membership
+    base_contains = I.contains
+
+    def contains(st, cont, item):
+        if is_graph(cont):
+            return z3.Select(fld(st, cont, "nodes").tree, nkey(item))
+        if isinstance(cont, NodeView):
+            return z3.Select(fld(st, cont.g, "nodes").tree, nkey(item))
+        if isinstance(cont, AdjView) and cont.u is not None:
+            return z3.Select(fld(st, cont.g, "adj").tree, ekey(cont.u, I.tup_to_sv(item)))
+        if isinstance(cont, EdgeView):
+            it = I.tup_to_sv(item)
+            if it.kind.tag == "tuple" and len(it.kind.args) == 2:
+                return z3.Select(fld(st, cont.g, "adj").tree, ekey(SV(it.kind.args[0], it.tree[0]), SV(it.kind.args[1], it.tree[1])))
+            raise Unsupported("`in G.edges` with a non-pair")
+        return base_contains(st, cont, item)
+    I.contains = contains
+
+    # iteration
+    base_to_iterspec = I.to_iterspec
+
+    def to_iterspec(st, v):
+        if is_graph(v):
+            return node_iter(st, v, False)
+        if isinstance(v, NodeView):
+            return node_iter(st, v.g, False)
+        if isinstance(v, EdgeView):
+            return edge_iter(st, v.g, False)
+        if isinstance(v, AdjView) and v.u is not None:
+            arr = nbr_set(st, v.g, v.u)
+            return IterSpec("set", mem=arr, ekind=ANY, elem=lambda x, s2: SV(ANY, x), identity=True)
+        return base_to_iterspec(st, v)
+    I.to_iterspec = to_iterspec
+
+    base_truthy = I.truthy
+
+    def truthy(v):
+        if isinstance(v, (NodeView, EdgeView, AdjView, DegreeView)):
+            raise Unsupported("truthiness of a graph view")
+        return base_truthy(v)
+    I.truthy = truthy
+
+    # len() of views
+    base_len = I.lib["len"].fn
+
+    def _len(I_, st, args, kw):
+        v = args[0]
+        if isinstance(v, NodeView):
+            yield SV(INT, I.card(fld(st, v.g, "nodes").tree)), st
+            return
+        if is_graph(v):
+            yield SV(INT, I.card(fld(st, v, "nodes").tree)), st
+            return
+        if isinstance(v, IterSpec) and v.mode == "set":
+            yield SV(INT, I.card(v.mem)), st
+            return
+        if isinstance(v, IterSpec) and v.mode == "seq":
+            yield SV(INT, v.length), st
+            return
+        yield from base_len(I_, st, args, kw)
+    I.lib["len"] = BuiltinVal("len", _len)
+
+
+    # ------------------------------------------------------------------ itertools.chain.from_iterable over neighbours
+    from .interp2 import CompVal
+
+    class UnionIter:
+        def __init__(self, comp):
+            self.comp = comp
+
+    def _from_iterable(I_, st, args, kw):
+        if not isinstance(args[0], CompVal):
+            raise Unsupported("chain.from_iterable of a non-generator")
+        yield UnionIter(args[0]), st
+    I.lib["itertools.chain"] = ModuleVal("itertools.chain")
+    I.lib["itertools.chain.from_iterable"] = BuiltinVal("chain.from_iterable", _from_iterable)
+
+    base_to_set = I.to_set_value
+
+    def to_set_value(st, v):
+        if isinstance(v, UnionIter):
+            e, cst = v.comp.node, v.comp.st
+            spec, x, s2, dom, guard = I.comp_symbolic(e, cst)
+            inner, _ = I.eval1(e.elt, s2)
+            ispec = I.to_iterspec(s2, inner)
+            if ispec.mode != "set" or not getattr(ispec, "identity", False):
+                raise Unsupported("chain.from_iterable over non-set iterables")
+            ks = keysort(ispec.ekind)
+            res = z3.Const(core.fresh_name("union"), z3.ArraySort(ks, core.B))
+            w = z3.Const(core.fresh_name("w"), ks)
+            member = ispec.member(w) if hasattr(ispec, "member") else None
+            if member is None:
+                raise Unsupported("chain.from_iterable: inner iterable has no term-level membership")
+            wit = z3.Function(core.fresh_name("wit"), ks, x.sort())
+            sub = lambda t: z3.substitute(t, (x, wit(w)))
+            I.define([z3.ForAll([x, w], z3.Implies(z3.And(dom, guard, member), z3.Select(res, w))),
+                      z3.ForAll([w], z3.Implies(z3.Select(res, w), z3.And(sub(dom), sub(guard), sub(member))))])
+            return SV(SET(ispec.ekind), res)
+        return base_to_set(st, v)
+    I.to_set_value = to_set_value
+
+    # ------------------------------------------------------------------ spec function ball(G, centers, k)
+    def _ball(I_, st, args, kw):
+        """Ball(0) = centres; Ball(i+1) = Ball(i) + neighbours of Ball(i)  (uninterpreted, two defining axioms)"""
+        g, centers, k = args
+        adj = fld(st, g, "adj").tree
+        C = I.to_set_value(st, centers)
+        if isinstance(C, set):
+            C = SV(SET(ANY), default_tree(SET(ANY)))
+        C = I.coerce(C, SET(ANY)) if C.kind != SET(ANY) else C
+        kt = I.coerce(k, INT).tree
+        SA = z3.ArraySort(Val, core.B)
+        f = I.ufunc("nx_ball", adj.sort(), SA, core.I, SA)
+        if not getattr(I, "_ball_ax", False):
+            I._ball_ax = True
+            a, c = z3.Const("ball_a", adj.sort()), z3.Const("ball_c", SA)
+            i = z3.Int("ball_i")
+            w, n = z3.Const("ball_w", Val), z3.Const("ball_n", Val)
+            wn = z3.Function("ball_wit", adj.sort(), SA, core.I, Val, Val)
+            prev = f(a, c, i - 1)
+            cur_w = z3.Select(f(a, c, i), w)
+            edge = z3.Select(a, to_key(EDGE, (n, w)))
+            wv = wn(a, c, i, w)
+            I.axioms.extend([
+                z3.ForAll([a, c], f(a, c, 0) == c),
+                z3.ForAll([a, c, i, w], z3.Implies(z3.And(i >= 1, z3.Select(prev, w)), cur_w), patterns=[cur_w]),
+                z3.ForAll([a, c, i, n, w], z3.Implies(z3.And(i >= 1, z3.Select(prev, n), edge), cur_w),
+                          patterns=[z3.MultiPattern(cur_w, edge)]),
+                z3.ForAll([a, c, i, w], z3.Implies(z3.And(i >= 1, cur_w),
+                                                   z3.Or(z3.Select(prev, w),
+                                                         z3.And(z3.Select(prev, wv), z3.Select(a, to_key(EDGE, (wv, w)))))),
+                          patterns=[cur_w]),
+            ])
+        yield SV(SET(ANY), f(adj, C.tree, kt)), st
+    I.lib["ball"] = BuiltinVal("ball", _ball)
